@@ -1,6 +1,7 @@
 #!/bin/sh
 set -e
-cd /verif/engine
+V=$(cd "$(dirname "$0")" && pwd)
+cd "$V/engine"
 export GOFLAGS=-mod=mod GOPROXY=off GOTOOLCHAIN=local
-mkdir -p /verif/bin
-go1.26.8 build -o /verif/bin/symgo .
+mkdir -p "$V/bin"
+go1.26.8 build -o "$V/bin/symgo" .
